@@ -108,7 +108,7 @@ def gen_sum(rng, n, tier):
         tracks[0][0][0] = 0.0; tracks[0][0][1] = 0.0
         tracks[0].append([float(W), float(H), 1.0])       # the bounding box is [0,W] x [0,H]
         out.append({'tracks': tracks, 'res': [rng.choice([0.5, 1, 2, 3]), rng.choice([0.5, 1, 2, 3])], 'margin': rng.choice([0.0, 0.0, 0.25, 0.5]),
-                    'order': rng.sample(OPS, len(OPS))})
+                    'order': rng.sample(OPS, len(OPS)), 'layout': rng.choice([None, None, [False, True], [True, False, True]])})
     return out
 
 
@@ -121,6 +121,8 @@ def run_sum(case):
     trs = []
     for pts in case['tracks']:
         t = Track([Obs(ENUCoords(x, y, 0), ObsTime.readUnixTime(i)) for i, (x, y, v) in enumerate(pts)])
+        if case.get('layout') and case['layout'][len(trs) % len(case['layout'])]:
+            t.createAnalyticalFeature('g', [1000.0 + i for i in range(len(pts))])      # another feature created first on this track: 'f' is not stored at the same index on every track
         t.createAnalyticalFeature('f', [nan if v is None else v for (_, _, v) in pts])
         trs.append(t)
     col = TrackCollection(trs)
